@@ -306,6 +306,34 @@ func runC03(p *P, r *R) {
 			cs == want && conv(ms, "load", "store") == cs && bmCap+4 <= MH, true, "creator {%s} mapper {%s} header size %d", cs, ms, MH)
 	}
 
+	if cm != nil {
+		for _, a := range rawAccesses(cm) {
+			if a.Kind != "store" {
+				continue
+			}
+			switch {
+			case a.K == 0 && a.Width == 2:
+				okv := false
+				if c, okc := stripConv(a.Val).(*ssa.Call); okc {
+					if b, okb := c.Call.Value.(*ssa.Builtin); okb && b.Name() == "len" {
+						_, okv = c.Call.Args[0].(*ssa.Parameter)
+					}
+				}
+				r.ob("R03.1", "createBufferManager: the list-count word carries len(pairs)", p.ipos(a.In), okv, true, "")
+			case a.K == bmCap && a.Width == 4:
+				okv := false
+				if sub, oks := stripConv(a.Val).(*ssa.BinOp); oks && sub.Op == token.SUB {
+					if c, okc := constInt(sub.Y); okc && c == MH {
+						if _, isPhi := sub.X.(*ssa.Phi); isPhi {
+							okv = true
+						}
+					}
+				}
+				r.ob("R03.1", "createBufferManager: the used-length word carries (running end offset - manager header size)", p.ipos(a.In), okv, true, "the mapper bounds the lists with it")
+			}
+		}
+	}
+
 	// --- queue header
 	qc, qm := p.fn("createQueueFromBytes"), p.fn("mappingQueueFromBytes")
 	if qc == nil || qm == nil {
@@ -325,6 +353,31 @@ func runC03(p *P, r *R) {
 			}
 		}
 		r.ob("R03.1", "queue header: capacity word written by the creator where the mapper reads it", p.pos(qc.Pos()), cs == "store@0/4" && capLoad == "load@0/4", true, "creator {%s} mapper {%s}", cs, capLoad)
+		// the capacity word is written before the shared binding routine reads it
+		okOrd := false
+		for _, a := range rawAccesses(qc) {
+			if a.Kind == "store" && a.K == 0 && a.Width == 4 {
+				for _, ci := range findInstrs(qc, p.mCall("mappingQueueFromBytes")) {
+					if instrDominates(a.In, ci) {
+						okOrd = true
+					}
+				}
+				if _, isParam := stripConv(a.Val).(*ssa.Parameter); !isParam {
+					okOrd = false
+				}
+			}
+		}
+		r.ob("R03.1", "queue header: the creator stores the requested capacity before binding the cursors", p.pos(qc.Pos()), okOrd, true, "the binding routine sizes the element area from the capacity word")
+		// cursors and flag start at zero
+		zeroed := 0
+		for _, w := range []string{"*queue.head", "*queue.tail", "*queue.workingFlag"} {
+			for _, si := range findInstrs(qc, mStoreWord(w)) {
+				if c, okc := constInt(si.(*ssa.Store).Val); okc && c == 0 {
+					zeroed++
+				}
+			}
+		}
+		r.ob("R03.1", "queue header: head, tail and working flag are initialised to zero by the creator", p.pos(qc.Pos()), zeroed == 3, true, "")
 		mapsThrough := len(findInstrs(qc, p.mCall("mappingQueueFromBytes"))) > 0
 		r.ob("R03.1", "queue header: creator obtains head/tail/flag through the mapper's own bindings", p.pos(qc.Pos()), mapsThrough, false, "creator and mapper share one binding routine")
 		r.count("R03.1", "queue header variants (amd64, arm) in the mapper", len(perAlloc), 1)
